@@ -275,7 +275,14 @@ class Run:
         elif allowed is True:
             self.count('gate_open_checks')
             self.count(f'gate_open_{state}')
-            if code == BAD_SUPVISORS_STATE and method == 'restart_sequence' and 'jobs in progress' in res[2]:
+            busy = method == 'restart_sequence' and (state_now['starting_jobs'] or state_now['stopping_jobs'])
+            if busy and not (code == BAD_SUPVISORS_STATE and 'jobs in progress' in res[2]):
+                # documented gate of restart_sequence: refused while starting / stopping jobs are in progress, on
+                # whatever instance (what the instance itself reports just before the call)
+                self.violate('C17/served-out-of-state:restart_sequence:jobs-in-progress',
+                             f"{where}: answered {res[:3]} although the instance reports starting jobs on "
+                             f"{state_now['starting_jobs']} and stopping jobs on {state_now['stopping_jobs']}")
+            elif code == BAD_SUPVISORS_STATE and method == 'restart_sequence' and 'jobs in progress' in res[2]:
                 # documented: the start sequence is not restarted while jobs are in progress
                 self.count('restart_sequence_refused_jobs_in_progress')
             elif code == BAD_SUPVISORS_STATE:
